@@ -132,6 +132,11 @@ def handle (inp out : Sexp) : CaseResult :=
         | _ => false
       | none => false)
   | .list [.atom "pos", .atom pos, .atom kind, .str ident] =>
+    match out with
+    | .list (.atom "mismatch" :: _) =>
+      { agree := false, specOk := false, nontrivial := true, tags := [s!"pos-{pos}", "entry-point-mismatch"],
+        detail := s!"Program::from_str and Instruction::from_str disagree: ident={repr ident} {out}" }
+    | _ =>
     match decodeOut out with
     | none => .bad s!"undecodable output {out}"
     | some o =>
@@ -218,6 +223,7 @@ def handle (inp out : Sexp) : CaseResult :=
     | none => .bad s!"undecodable output {out}"
     | some o =>
       let id := ident.toList
+      let kind := if kind.startsWith "reparse-" then (kind.drop 8).toString else kind
       let count : Nat := match kind with
         | "waveform" => 4 | "gate" => 3 | "gateplain" => 3 | "circuit" => 2 | "calibration" => 4
         | "label" => 4 | "extern" => 2 | "frame" => 4 | "region" => 4 | _ => 0
@@ -248,6 +254,41 @@ def handle (inp out : Sexp) : CaseResult :=
                  (match o with | .names _ => "out-names" | .err => "out-err" | .other => "out-other"),
                  if id.any Char.isUpper && id.any Char.isLower then "mixedcase" else "onecase"],
         detail := s!"kind={kind} ident={repr ident} expected={repr expected} model={repr pred} impl={repr o}" }
+  | .list [.atom "through", .atom kind, .str n, .str n2] =>
+    match decodeOut out with
+    | none => .bad s!"undecodable output {out}"
+    | some o =>
+      let a := n.toList
+      let b := n2.toList
+      let okName (x : List Char) := Spec.validIdent x && !QV.Tok.isReservedWord x
+      -- extern names must be *user* identifiers: `validate_user_identifier` (reserved.rs) additionally rejects
+      -- the standard gate names (upper case, exact) and the constants `i`, `pi`
+      let reservedUser : List String := ["CAN", "CCNOT", "CNOT", "CPHASE", "CPHASE00", "CPHASE01", "CPHASE10",
+        "CSWAP", "CZ", "H", "I", "ISWAP", "PHASE", "PISWAP", "PSWAP", "RX", "RY", "RZ", "S", "SWAP", "T", "X", "XY",
+        "Y", "Z", "i", "pi"]
+      let scope := okName a && okName b && a != b &&
+        (kind != "typecheck" || (!Spec.exprReserved a && !Spec.exprReserved b)) &&
+        (kind != "callresolve" || !reservedUser.contains n)
+      -- a definition matches uses of exactly its own spelling, and no other letter case
+      let expected : Out := match kind with
+        | "calexpand" => .names ["<fence>", n2]
+        | "seqexpand" => .names ["Zq9", n2]
+        | "callresolve" => .names ["<resolved>", "<unresolved>"]
+        | "typecheck" => .names ["first-ok:true", "whole-ok:false"]
+        | _ => .other
+      -- model: both spellings lex to the Identifier of that spelling, every site stores it; matching is
+      -- string equality
+      let pred : Option Out :=
+        match QV.Lex.lex a, QV.Lex.lex b with
+        | some [.identifier s], some [.identifier t] =>
+          if s == a && t == b && a != b && scope then some expected else none
+        | _, _ => none
+      { agree := (match pred with | some p => p == o | none => true),
+        specOk := !scope || o == expected,
+        nontrivial := scope,
+        tags := ["through", s!"through-{kind}", if scope then "valid-ident" else "not-in-scope",
+                 (match o with | .names _ => "out-names" | .err => "out-err" | .other => "out-other")],
+        detail := s!"kind={kind} n={repr n} n2={repr n2} expected={repr expected} impl={repr o}" }
   | .list [.atom "rerender", .str text] =>
     -- the harness lexed `text` with the real lexer, laid the tokens out canonically with its Rust mirror of
     -- `QV.Render.render` and lexed that again with the real lexer
